@@ -213,6 +213,8 @@ def finalize(out: Outcome):
                 hit = None
         if hit is not None:
             out.known_hits.append(key)
+            if 'bounded' not in (f.get('backend') or '') and 'concrete' not in (f.get('backend') or ''):
+                out.known_counted += 1
             if hit not in announced:
                 announced.add(hit)
                 out.emit('KNOWN-FINDING: property=%s %s (first failing obligation: %s)' % (out.prop, known_keys[hit]['what'], key))
